@@ -48,8 +48,27 @@ def basis(kind, n):
     raise KeyError(kind)
 
 
+def _cnum(x):
+    re, im = bd.parse_number(x)
+    return complex(float(re), float(im))
+
+
+def _csym(x):
+    re, im = bd.parse_number(x)
+    return SymC(symc._rv(re), symc._rv(im))
+
+
 def basis_pair(kind, n):
     """(R, L) with L^dagger R = 1 and exactly representable entries; unitary kinds have L = R."""
+    if kind == "rotation_pair":
+        # real non-symmetric H_0 = [[0,-1],[1,0]] (+) diag(...): eigenvalues +-i with eigenvectors (1, -+i); biorthogonal
+        # normalisation L = R/2 keeps all entries exactly representable
+        R = np.eye(n, dtype=complex)
+        R[:2, :2] = np.array([[1, 1], [-1j, 1j]])
+        L = R.copy()
+        L[:2, :2] = R[:2, :2] / 2
+        assert np.array_equal(L.conj().T @ R, np.eye(n))
+        return R, L
     if kind in ("biorth", "biorth_complex"):
         S = np.eye(n, dtype=complex)
         for a in range(n - 1):
@@ -67,6 +86,10 @@ def basis_pair(kind, n):
     return Q, Q
 
 
+class SingularSystem(Exception):
+    pass
+
+
 def exact_factorized(A):
     """Stub for scipy.sparse.linalg.factorized: exact rational inverse (contract A @ solve(b) == b)."""
     import sympy
@@ -79,7 +102,10 @@ def exact_factorized(A):
         re, im = Fraction(z.real), Fraction(z.imag)
         return sympy.Rational(re.numerator, re.denominator) + sympy.I * sympy.Rational(im.numerator, im.denominator)
 
-    Minv = sympy.Matrix(n, n, lambda i, j: q(M[i, j])).inv()
+    try:
+        Minv = sympy.Matrix(n, n, lambda i, j: q(M[i, j])).inv()
+    except Exception as e:  # scipy's LU would report "Factor is exactly singular" / return garbage
+        raise SingularSystem(f"the library handed a singular system to the sparse LU: {e}") from e
     inv = np.empty((n, n), dtype=object)
     for i in range(n):
         for j in range(n):
@@ -111,8 +137,9 @@ def c06(cfg):
     Q, Lq = basis_pair(cfg["basis"], n)
     biorth = Lq is not Q
     assert not (biorth and herm), "biorthogonal bases are a non-Hermitian-mode feature"
-    Ev = [Fraction(x) for x in cfg["spectrum"]]
-    Efl = np.array([float(e) for e in Ev])
+    Efl = np.array([_cnum(x) for x in cfg["spectrum"]])
+    if np.allclose(Efl.imag, 0):
+        Efl = Efl.real
     H0_lab = (Q * Efl) @ Lq.conj().T
     if np.allclose(np.asarray(H0_lab).imag, 0):
         H0_lab = np.asarray(H0_lab).real
@@ -147,6 +174,14 @@ def c06(cfg):
                             lib[(w, i, j, o)] = v
         except symc.SymbolicDivisionByZero:
             raise
+        except SingularSystem as e:
+            # replay with the real LU: does the implicit result still agree with the complete-basis result?
+            try:
+                ok, detail = _numeric_replay(cfg, {}, 1, 0, len(explicit), 1)
+            except Exception as e2:
+                ok, detail = True, {"raised_with_real_LU": f"{type(e2).__name__}: {e2}"[:200]}
+            rec.direct_violation("implicit mode builds a singular linear system", sig + ":singular-system", dict(detail, stub=str(e)[:200]), reproduced=ok)
+            return rec
         except Exception as e:
             from .herm import library_exception_info
 
@@ -161,7 +196,7 @@ def c06(cfg):
     sizes = list(explicit) + [nB]
     Qs = symc.const(Q)
     H1_eig = symc.mm(symc.mm(symc.dagger(symc.const(Lq)), H1), Qs)
-    E = [SymC(symc._rv(e)) for e in Ev]
+    E = [_csym(x) for x in cfg["spectrum"]]
     refcfg = dict(carrier="B", hermitian=herm, sizes=sizes, max_order=mo, fd=cfg.get("fd"))
     P = bd.Problem(refcfg, E=E, classes=None, terms_data={(1,): H1_eig})
     if cfg.get("fd"):
@@ -239,7 +274,9 @@ def c16_direct(cfg):
     k = sum(explicit)
     Q, Lq = basis_pair(cfg["basis"], n)
     biorth = Lq is not Q
-    Efl = np.array([float(Fraction(x)) for x in cfg["spectrum"]])
+    Efl = np.array([_cnum(x) for x in cfg["spectrum"]])
+    if np.allclose(Efl.imag, 0):
+        Efl = Efl.real
     H0 = (Q * Efl) @ Lq.conj().T
     if np.allclose(np.asarray(H0).imag, 0):
         H0 = np.asarray(H0).real
@@ -256,9 +293,11 @@ def c16_direct(cfg):
     old = PL.factorized
     PL.factorized = exact_factorized
     try:
+      try:
+        solve = None
         solve = solve_sylvester_direct(sparse.csr_array(H0) if cfg.get("h0_format") == "sparse" else sparse.csr_array(H0), list(vecs), nonhermitian=not herm)
         for b in range(len(explicit)):
-            Eb = [SymC(symc._rv(Fraction(x))) for x in cfg["spectrum"][off[b] : off[b + 1]]]
+            Eb = [_csym(x) for x in cfg["spectrum"][off[b] : off[b + 1]]]
             D = symc.zeros(len(Eb), len(Eb))
             for a in range(len(Eb)):
                 D[a, a] = Eb[a]
@@ -281,13 +320,16 @@ def c16_direct(cfg):
             groups.setdefault(e, []).append(idx_)
         for e, idxs in groups.items():
             kv, lkv = Q[:, idxs].copy(), Lq[:, idxs].copy()
-            gf = direct_greens_function(sparse.csr_array(H0), float(Fraction(e)), kernel_vectors=kv, left_kernel_vectors=lkv if biorth else None)
+            en = _cnum(e)
+            gf = direct_greens_function(sparse.csr_array(H0), en.real if en.imag == 0 else en, kernel_vectors=kv, left_kernel_vectors=lkv if biorth else None)
             v = symc.general("g_", n, 1)[:, 0]
             xsol = np.asarray(gf(np.array(v, dtype=object)), dtype=object)
             Pk = symc.eye(n) - symc.mm(symc.const(kv), symc.dagger(symc.const(lkv)))
-            Em = symc.eye(n) * SymC(symc._rv(Fraction(e))) - H0s
+            Em = symc.eye(n) * _csym(e) - H0s
             rec.oblige(f"greens function E={e}: (E-H) x = P v", symc.mm(Em, xsol.reshape(-1, 1)), symc.mm(Pk, v.reshape(-1, 1)), sig=sig + ":greens-residual", replay=lambda m: (True, {}))
             rec.oblige(f"greens function E={e}: P x = x", symc.mm(Pk, xsol.reshape(-1, 1)), xsol.reshape(-1, 1), sig=sig + ":greens-range", replay=lambda m: (True, {}))
+      except SingularSystem as e:
+        rec.direct_violation("direct solver builds a singular linear system (E - H with the kernel constraints must be regular)", sig + ":singular-system", {"stub": str(e)[:300]})
     finally:
         PL.factorized = old
     from .. import solver
@@ -308,8 +350,12 @@ def _numeric_replay(cfg, model, w, i, j, o):
     k = sum(explicit)
     Q, Lq = basis_pair(cfg["basis"], n)
     biorth = Lq is not Q
-    Efl = np.array([float(Fraction(x)) for x in cfg["spectrum"]])
+    Efl = np.array([_cnum(x) for x in cfg["spectrum"]])
+    if np.allclose(Efl.imag, 0):
+        Efl = Efl.real
     H0_lab = (Q * Efl) @ Lq.conj().T
+    if np.allclose(np.asarray(H0_lab).imag, 0):
+        H0_lab = np.asarray(H0_lab).real
     H1 = np.zeros((n, n), dtype=complex)
     for a in range(n):
         for b in range(n):
@@ -381,6 +427,9 @@ def configs(tier):
         cfgs.append(dict(hermitian=herm, n=4, explicit=[1, 2], basis="hadamard", spectrum=["0", "1", "2", "7"], max_order=2, h0_format="sparse"))
         if not herm:
             # genuinely biorthogonal explicit bases (R != L), real and complex, one and two explicit blocks, degenerate level
+            # real non-symmetric H_0 with a complex-conjugate pair, one member explicit and its partner implicit
+            cfgs.append(dict(hermitian=False, n=3, explicit=[1], basis="rotation_pair", spectrum=["1j", "-1j", "3"], max_order=3))
+            cfgs.append(dict(hermitian=False, n=4, explicit=[1, 1], basis="rotation_pair", spectrum=["1j", "-1j", "3", "1"], max_order=2, h0_format="sparse"))
             cfgs.append(dict(hermitian=False, n=3, explicit=[1], basis="biorth", spectrum=["0", "1", "3"], max_order=3))
             cfgs.append(dict(hermitian=False, n=3, explicit=[1], basis="biorth_complex", spectrum=["0", "2", "3"], max_order=3))
             cfgs.append(dict(hermitian=False, n=4, explicit=[2], basis="biorth_complex", spectrum=["1", "1", "4", "6"], max_order=2))
@@ -404,6 +453,8 @@ def configs_c16_direct(tier):
         cfgs.append(dict(hermitian=herm, n=4, explicit=[3], basis="hadamard", spectrum=["2", "1", "2", "7"], _job="direct"))
         cfgs.append(dict(hermitian=herm, n=5, explicit=[3, 1], basis="complex_hadamard", spectrum=["2", "1", "2", "4", "7"], _job="direct"))
         if not herm:
+            cfgs.append(dict(hermitian=False, n=3, explicit=[1], basis="rotation_pair", spectrum=["1j", "-1j", "3"], _job="direct"))
+            cfgs.append(dict(hermitian=False, n=4, explicit=[2], basis="rotation_pair", spectrum=["1j", "-1j", "3", "1"], _job="direct"))
             cfgs.append(dict(hermitian=False, n=3, explicit=[1], basis="biorth", spectrum=["0", "1", "3"], _job="direct"))
             cfgs.append(dict(hermitian=False, n=4, explicit=[2], basis="biorth_complex", spectrum=["1", "1", "4", "6"], _job="direct"))
             cfgs.append(dict(hermitian=False, n=4, explicit=[1, 2], basis="biorth_complex", spectrum=["0", "2", "3", "7"], _job="direct"))
